@@ -48,6 +48,9 @@ def cases(ctx):
     g0 = {'V': ['S0'], 'Sigma': ['a'], 'S': 'S0', 'R': [['S0', 0, [['t', 'a']]]]}
     yield {'ex': names.index('cfg_cyk_matrix'), 'name': 'cfg_cyk_matrix', 'inst': {'G': g0, 'w': 'a'}}
     yield {'ex': names.index('cfg_leftmost_derivation'), 'name': 'cfg_leftmost_derivation', 'inst': {'G': g0, 'w': 'a'}}
+    # (found by the proof of own_language_words_ok in Gamba/Props/C13h.lean: its side condition `Renderable` is necessary)
+    yield {'ex': names.index('dfa_for_language'), 'name': 'dfa_for_language',
+           'inst': {'X': {'Q': ['p', 'q'], 'Sigma': ['_'], 'q0': 'p', 'F': ['q'], 'delta': [['p', '_', 'q'], ['q', '_', 'q']]}, 'len': 2, 'max': 0}}
     yield {'ex': -1, 'name': 'shipped-notebooks', 'inst': {}}
 
 
@@ -101,6 +104,8 @@ def finding_key(c, own):
     if c['name'] in ('cfg_cyk_matrix', 'cfg_leftmost_derivation', 'cfg_rightmost_derivation') and \
             any(len(v) != 1 or not v.isupper() for v in inst['G']['V']):
         return 'cfg-key-nonsimple-variable'
+    if c['name'].endswith('_for_language') and isinstance(inst.get('X'), dict) and ({'_', 'ε'} & set(inst['X'].get('Sigma', []))):
+        return 'language-words-underscore-or-epsilon-symbol'
     return None
 
 
